@@ -72,6 +72,30 @@ CHECKS.update({
             'Trusted: serialize + navigation-based canonical form as the notion of "visible".', 'DESIGN.md 3 C18'),
 })
 
+CHECKS.update({
+    'C04': ('Hypothesis typed OAL programs x populations; differential against a reference evaluator over the relational shadow',
+            'Type-correct programs over a nine-class schema are run by bridgepoint.interpret and by an independent reference '
+            'evaluator; return value and complete final population must agree. Programs without a language-defined meaning '
+            'are discarded and counted. Bounded exploration.',
+            'Trusted: pbt/oalref.py (self-tested), the typed generator, the discard rules listed in the evidence.', 'DESIGN.md 3 C04'),
+    'C07': ('exhaustive expression trees (depth <= 3, all operators) + Hypothesis deep trees and bodies over every statement production with drawn layout; AST -> text -> parse round trip on regenerated tables',
+            'Every expression tree up to depth three is printed with exactly the parentheses the documented table requires and '
+            'must parse back to the same tree (complete inside that bound); Hypothesis adds deeper trees with redundant '
+            'parentheses and bodies over all statement productions with random layout, comments, keyword case and optional words.',
+            'Trusted: the harness printer/minimal-parenthesisation (self-tested on hand-checked samples) and the strict tree comparison. '
+            'PLY tables are regenerated from the working tree, so grammar edits are visible.', 'DESIGN.md 3 C07'),
+    'C08': ('Hypothesis metamorphic relation: re-cased keywords vs lower-case body (parse trees, interpreter result + final population vs reference)',
+            'Bodies over every production are parsed in lower case and under a drawn per-occurrence case map and the trees '
+            'compared; typed programs are interpreted under a case map and compared with the reference evaluator.',
+            'Trusted: as C04/C07. The prebuild clause is exercised by the prebuild part once the C05/C06 machinery is in place.',
+            'DESIGN.md 3 C08'),
+    'C13': ('Hypothesis text / token soup / mutants + pumped inputs under an alarm (totality); printer-computed spans vs recorded positions for bodies with drawn layout',
+            'parse must return a tree or raise ParseException within 10 s on every generated input; for generated bodies every '
+            'statement and expression node must carry exactly the start/end line and column and source substring that the '
+            'harness printer computed from token offsets.',
+            'Trusted: printer offsets (self-tested on hand-laid text); 10 s alarm as the bounded-time criterion.', 'DESIGN.md 3 C13'),
+})
+
 NOT_APPLICABLE = {
 }
 
